@@ -106,6 +106,8 @@ def driver_b(cases, idxs):
         params = c["params"]
         gl = [g.replace("@", suf) for g in c.get("globals", [])]
         sig = ", ".join("%s a%d" % (t, i) for i, t in enumerate(params))
+        if c.get("split"):
+            parts.append((c["split"]["pre"] + "\n" + c["split"]["host"]).replace("@", suf))
         parts.append("extern %s %s(%s); extern void vf_save%s(void); extern void vf_restore%s(void); extern unsigned long vf_dump%s(unsigned char*);" % (
             c["ret"], fname, sig or "void", suf, suf, suf))
         args = ", ".join("a%d" % i for i in range(len(params)))
@@ -144,6 +146,10 @@ def compile_case(case, suf, level, mode):
     from vf.core import cpu_limit, CpuTimeout
     h, gl = helpers_src(case, suf)
     src = case["src"].replace("@", suf) + "\n" + h + "\n"
+    if mode == "b" and case.get("split"):
+        # calls across the ABI boundary: ppci compiles only its half, the gcc-compiled driver carries the other half
+        sp = case["split"]
+        src = (sp["pre"] + "\n" + sp["ppci"]).replace("@", suf) + "\n" + h + "\n"
     if mode == "b":
         src += dump_helper(case, suf, "b") + "\n"
     try:
@@ -229,7 +235,23 @@ def driver_a(cases, idxs, oracle):
     return parts, "\n".join(main) + "\n"
 
 
-def run_path_a(cases, idxs, level, oracle, d, tag):
+def died_in(text):
+    """Path (a) has no signal handling: when the program dies, the case whose call was running is the one after the last 'B k vi' line."""
+    if "\nEXIT " not in text and "TIMEOUT" not in text:
+        return None
+    last = None
+    for line in text.splitlines():
+        if line.startswith("B "):
+            try:
+                last = int(line.split()[1])
+            except (ValueError, IndexError):
+                pass
+        elif line.startswith("R ") and last is not None and line.split()[1:2] == [str(last)]:
+            pass
+    return last
+
+
+def run_path_a(cases, idxs, level, oracle, d, tag, cache=None):
     """Each case (+ its driver functions) is its own translation unit compiled by ppci; ppci links; the ELF runs natively."""
     from ppci.api import cc, asm, link
     from ppci.common import CompilerError
@@ -243,6 +265,11 @@ def run_path_a(cases, idxs, level, oracle, d, tag):
     for k in idxs:
         c = cases[k]
         suf = "_%d" % k
+        if cache is not None and k in cache:
+            objs.append(cache[k])
+            good.append(k)
+            protos.append("void vf_case_%d(void);" % k)
+            continue
         parts, _ = driver_a(cases, [k], oracle)
         src = "void vf_puts(char*); void vf_putu(unsigned long); void vf_puti(long); void vf_hexn(unsigned long); void vf_hex(unsigned char*, unsigned long); void vf_tr(void); extern int vf_ntrace; int ext(int); long long extl(long long);\n" + "\n".join(parts[1:])
         try:
@@ -258,6 +285,8 @@ def run_path_a(cases, idxs, level, oracle, d, tag):
             failed[k] = ("internal", "%s: %s" % (type(e).__name__, str(e)[:100]))
             continue
         objs.append(o)
+        if cache is not None:
+            cache[k] = o
         good.append(k)
         protos.append("void vf_case_%d(void);" % k)
     if not good:
@@ -306,7 +335,8 @@ def judge(p, cases, good, oracle, text, path, level):
                 continue
             g = got.get(vi)
             vec = c["vectors"][vi]
-            wit = {"case": {kk: c[kk] for kk in ("src", "fname", "ret", "params", "globals", "restore", "fam", "feat")}, "vector": vec, "level": level, "path": path}
+            wit = {"case": {kk: c[kk] for kk in ("src", "fname", "ret", "params", "globals", "restore", "fam", "feat", "strict", "locus", "split") if kk in c},
+                   "vector": vec, "level": level, "path": path}
             feat = c["fam"] + "/" + generalise(c)
             if g is None:
                 p.violation("x86_64/%s/no-result" % feat, "%s opt=%s path=%s: call f%r produced no result line (program died earlier or output truncated); gcc gives %r" % (c["feat"], level, path, tuple(vec), o[1]), wit)
@@ -329,16 +359,44 @@ def families(tier, seed):
     out = []
     out += list(cgen.s_corpus())
     out += list(cgen.s_templates(depth2=(tier != "quick")))
-    out += list(cgen.aggregates())
+    out += list(cgen.aggregates(extra=False))
     out += list(cgen.floats())
     if tier == "quick":
         out += [c for i, c in enumerate(cgen.e1(types=cgen.SIX)) if i % 5 == seed % 5]
         out += [c for i, c in enumerate(cgen.e2()) if i % 8 == seed % 8]
         out += [c for i, c in enumerate(cgen.e3(types=cgen.SIX)) if i % 8 == seed % 8]
+        out += extended_families(tier, seed)
     else:
         out += list(cgen.e1())
         out += list(cgen.e2())
         out += list(cgen.e3())
+        out += extended_families(tier, seed)
+    return out
+
+
+def extended_families(tier, seed):
+    """The extended cgen families (initialisers, character/string constants, compound literals, variadics, sizeof/offsetof, statements,
+    structures by value, pointers, declarations) and the cross-ABI family.  quick: a seed-rotated residue class of the large families."""
+    from vf.gen import cgen
+    if tier != "quick":
+        return list(cgen.extended())
+    out = []
+
+    def sl(gen, m):
+        return [c for i, c in enumerate(gen) if i % m == seed % m]
+    for st in cgen.STORAGES:
+        out += sl(cgen.init_family(st), 16)
+    out += sl(cgen.chars_strings(), 8)
+    out += list(cgen.compound_literals())
+    out += sl(cgen.variadics(), 8)
+    out += sl(cgen.sizes_offsets(), 12)
+    out += [c for c in cgen.statements() if c["feat"] != "switch-case-range-wide"]  # ppci expands the range label by label (C28 reports the time-out)
+    out += sl(cgen.struct_values(), 10)
+    out += sl(cgen.pointers(), 2)
+    out += sl(cgen.declarations(), 2)
+    # cgen.cross_abi() (structures by value and variadic calls ACROSS the gcc/ppci boundary) is not run: ppci passes structures and variadic
+    # arguments by its own convention, and neither C04 ("supported subset") nor C40 (integer, pointer and floating-point parameters) states
+    # that these interoperate with SysV code.  Within one ppci-compiled program they are covered by the families above.
     return out
 
 
@@ -348,7 +406,7 @@ def worker(p, shard, tier):
     cases = [c for _, c in shard]
     tagbase = "w%d" % os.getpid()
     with scratch("C04") as d:
-        oracle = gccrun.run_cases(cases, d, batch=120, tag=tagbase + "o")
+        oracle = gccrun.run_cases_policy(cases, d, batch=120, tag=tagbase + "o")
         idxs = [k for k in range(len(cases)) if oracle[k] is not None]
         p.count("gcc_rejected_functions", len(cases) - len(idxs))
         for li, level in enumerate(LEVELS):
@@ -358,13 +416,20 @@ def worker(p, shard, tier):
                     remaining = [k for k in idxs if level == "0" or LEVELS[1 + (shard[k][0] % 3)] == level]
                 else:
                     remaining = list(idxs)
+                if tier == "quick" and path == "a" and level == "0":
+                    # quick: the extended families run on path (a) at their rotating level only
+                    remaining = [k for k in remaining if not cases[k].get("strict")]
+                if path == "a":
+                    # the cross-ABI family only differs from SV / VA where gcc compiles one half: path (b)
+                    remaining = [k for k in remaining if not cases[k].get("split")]
                 if not remaining:
                     continue
-                for attempt in range(3):
+                cache = {}
+                for attempt in range(40):
                     if path == "b":
                         text, failed, good = run_path_b(cases, remaining, level, d, "%s_%s%s" % (tagbase, level, attempt))
                     else:
-                        text, failed, good = run_path_a(cases, remaining, level, oracle, d, "%s_%s%s" % (tagbase, level, attempt))
+                        text, failed, good = run_path_a(cases, remaining, level, oracle, d, "%s_%s%s" % (tagbase, level, attempt), cache)
                     for k, f in failed.items():
                         if k == "link":
                             continue
@@ -375,8 +440,18 @@ def worker(p, shard, tier):
                         wit = {"level": level, "path": path, "cases": [cases[k]["feat"] for k in good][:5]}
                         p.violation("x86_64/link-%s/failed" % path, "linking a batch for path %s at opt=%s failed: %s" % (path, level, failed.get("link", ("", ""))[1]), wit)
                         break
+                    culprit = died_in(text) if path == "a" else None
+                    if culprit is not None and culprit in good and good.index(culprit) + 1 < len(good):
+                        # the program died inside one case: judge the cases up to it, run the rest again without it
+                        i = good.index(culprit)
+                        judge(p, cases, good[:i + 1], oracle, text, path, level)
+                        remaining = good[i + 1:]
+                        p.count("path_a_restarts_after_a_crash")
+                        continue
                     judge(p, cases, good, oracle, text, path, level)
                     break
+                else:
+                    p.count("path_a_restart_cap_hit")
 
 
 def run(ctx):
@@ -402,7 +477,7 @@ def replay(w):
     case = dict(w["case"])
     case["vectors"] = [w["vector"]]
     with scratch("C04r") as d:
-        oracle = gccrun.run_cases([case], d)
+        oracle = gccrun.run_cases_policy([case], d)
         if oracle[0] is None:
             return False, "gcc rejects"
         if w["path"] == "b":
